@@ -144,6 +144,19 @@ func c05Inputs(n int, seed uint64) []string {
 			}
 		}
 	}
+	// fingerprints that differ only in the letter case of one class character
+	// (t = SQL type, T = T-SQL keyword): an intern table or cache keyed by the
+	// upper-cased fingerprint hands one the other's spelling
+	for _, fr := range []string{"1;%s;", "1;%s 1", "select %s", "1 %s", "%s", "1;%s;%s", "a %s b"} {
+		for _, wd := range []string{"int", "varchar", "date", "binary", "shutdown", "declare", "drop", "exec", "insert", "create"} {
+			add(strings.ReplaceAll(fr, "%s", wd))
+		}
+	}
+	// URL attribute values longer than 64 KiB with the scheme word at the very end
+	for _, sz := range []int{65536, 70000, 131072} {
+		add("<a href=\"" + strings.Repeat("x", sz) + "javascript:y\">")
+		add("' src='" + strings.Repeat("ab/", sz/3) + "java")
+	}
 	// large inputs (a size-dependent fast path, a parallel split, a pooled
 	// buffer that only large inputs outgrow): attacks firing in several
 	// contexts, padded to 64 KiB / 64 KiB + 1 (thorough: also 256 KiB / 1 MiB)
@@ -288,6 +301,15 @@ func C05Work(cfgPath string) int {
 					p.events = append(p.events, c05Event{G: g, I: i, Op: op, R: res, T0: t0, T1: t1})
 				}
 				p.calls++
+				if r.Intn(4) == 0 {
+					// the same question again at once (a one-entry memo is keyed by
+					// this input right now; another goroutine may be half-way through
+					// storing its own answer)
+					if again := c05Call(op, inputs[i]); again != res && len(p.bad) < 8 {
+						p.bad = append(p.bad, fmt.Sprintf("goroutine %d: %s(%s) returned %q and, asked again at once, %q", g, c05OpNames[op], strconv.Quote(trunc(inputs[i], 80)), res, again))
+					}
+					p.calls++
+				}
 				if old := p.res[op][i]; old == "" {
 					p.res[op][i] = res
 				} else if old != res && len(p.bad) < 8 {
